@@ -73,6 +73,32 @@ def mpz_cdiv_q_ui_ret (n d : Int) : Int := iabs (Int.fmod (-n) d)
 def mpz_cdiv_r_ui_d0 (n d : Int) : Int := -(Int.fmod (-n) d)
 def mpz_cdiv_r_ui_ret (n d : Int) : Int := iabs (Int.fmod (-n) d)
 def mpz_cdiv_ui (n d : Int) : Int := iabs (Int.fmod (-n) d)
+def mpz_fdiv_qr_d0 (n d : Int) : Int := Int.fdiv n d
+def mpz_fdiv_qr_d1 (n d : Int) : Int := Int.fmod n d
+def mpz_cdiv_qr_d0 (n d : Int) : Int := -(Int.fdiv (-n) d)
+def mpz_cdiv_qr_d1 (n d : Int) : Int := -(Int.fmod (-n) d)
+def mpz_tdiv_qr_ui_d0 (n d : Int) : Int := Int.tdiv n d
+def mpz_tdiv_qr_ui_d1 (n d : Int) : Int := Int.tmod n d
+def mpz_tdiv_qr_ui_ret (n d : Int) : Int := iabs (Int.tmod n d)
+def mpz_fdiv_qr_ui_d0 (n d : Int) : Int := Int.fdiv n d
+def mpz_fdiv_qr_ui_d1 (n d : Int) : Int := Int.fmod n d
+def mpz_fdiv_qr_ui_ret (n d : Int) : Int := iabs (Int.fmod n d)
+def mpz_cdiv_qr_ui_d0 (n d : Int) : Int := -(Int.fdiv (-n) d)
+def mpz_cdiv_qr_ui_d1 (n d : Int) : Int := -(Int.fmod (-n) d)
+def mpz_cdiv_qr_ui_ret (n d : Int) : Int := iabs (Int.fmod (-n) d)
+def mpz_tdiv_r_2exp (a k : Int) : Int := Int.tmod a (2 ^ k.toNat)
+def mpz_fdiv_r_2exp (a k : Int) : Int := a % 2 ^ k.toNat
+def mpz_cdiv_q_2exp (a k : Int) : Int := -((-a) / 2 ^ k.toNat)
+-- representability predicates (non-zero iff the value fits)
+def mpz_fits_slong_p (a : Int) : Int := if -9223372036854775808 ≤ a ∧ a < 9223372036854775808 then 1 else 0
+def mpz_fits_ulong_p (a : Int) : Int := if 0 ≤ a ∧ a < 18446744073709551616 then 1 else 0
+def mpz_fits_sint_p (a : Int) : Int := if -2147483648 ≤ a ∧ a < 2147483648 then 1 else 0
+def mpz_fits_uint_p (a : Int) : Int := if 0 ≤ a ∧ a < 4294967296 then 1 else 0
+def mpz_fits_sshort_p (a : Int) : Int := if -32768 ≤ a ∧ a < 32768 then 1 else 0
+def mpz_fits_ushort_p (a : Int) : Int := if 0 ≤ a ∧ a < 65536 then 1 else 0
+def mpz_divisible_p (n d : Int) : Int := if d = 0 then (if n = 0 then 1 else 0) else (if n % d = 0 then 1 else 0)
+def mpz_divisible_ui_p (n d : Int) : Int := if d = 0 then (if n = 0 then 1 else 0) else (if n % d = 0 then 1 else 0)
+def mpz_sgn (a : Int) : Int := if a < 0 then -1 else if a = 0 then 0 else 1
 /-- `mpz_mod`: the sign of the divisor is ignored, the result is non-negative -/
 def mpz_mod (n d : Int) : Int := n % d
 def mpz_mod_ui_d0 (n d : Int) : Int := n % d
